@@ -24,7 +24,7 @@ ASSUMPTIONS = [
     "at most k states more than the minimal reference automaton",
     "element 'metadata' is judged against 'at most one child of any name' (C05), not its empty children section",
 ]
-REQUIRED = ["child_names_of_a_str_subclass", "mixed_parents_with_blank_or_real_text", "sequences_longer_than_256", "table_edit_probes", "validations_of_nested_parent", "foreign_children_with_prefix", "validations_on_reused_parent_object", "validations_on_reused_rule_object", "collecting_calls_with_prefilled_list", "failfast_accept", "failfast_reject", "collecting_accept", "collecting_reject", "oracle_crosschecks"]
+REQUIRED = ["reorders_in_place_on_reused_parent", "real_names_as_strangers", "child_names_of_a_str_subclass", "mixed_parents_with_blank_or_real_text", "sequences_longer_than_256", "table_edit_probes", "validations_of_nested_parent", "foreign_children_with_prefix", "validations_on_reused_parent_object", "validations_on_reused_rule_object", "collecting_calls_with_prefilled_list", "failfast_accept", "failfast_reject", "collecting_accept", "collecting_reject", "oracle_crosschecks"]
 EXHAUSTIVE = {"quick": False, "thorough": False}
 
 FOREIGN_NAME = "verifForeignElement"
@@ -81,7 +81,7 @@ def _materialise(seq, rule_names=()):
         if a != relang.FOREIGN:
             out.append(a)
             continue
-        variants = [FOREIGN_NAME]
+        variants = [FOREIGN_NAME, "studyAreaDescription", "protocol", "software", "citation", "references"]
         for nm in rule_names[:3]:
             variants += [nm.upper(), nm.lower() if nm.lower() != nm else nm.capitalize(), nm + "x", nm[:-1], nm + " ",
                          "{https://eml.ecoinformatics.org/eml-2.2.0}" + nm, "eml:" + nm]
@@ -110,6 +110,16 @@ def _reused_parent(rule_name, element, names):
     if p is None:
         p = _REUSED[key] = emlkit.make_node(rule_name, element, [])
     old = list(p.children)
+    if len(old) > 1 and sorted(c.name for c in old) == sorted(names) and [c.name for c in old] != list(names):
+        # the same children in another order: the existing child objects are re-ordered in place (a drag in an editor, a positional
+        # shift), the list keeps its length and its members
+        pool = list(old)
+        new = []
+        for nm in names:
+            k = next(i for i, c in enumerate(pool) if c.name == nm)
+            new.append(pool.pop(k))
+        p.children[:] = new
+        return p
     p.remove_children()
     emlkit.discard(*old)
     for c in names:
@@ -121,10 +131,12 @@ _RULE_OBJECTS = {}
 _PREVIOUS = {}
 
 
-def judge(ctx, rule_name, element, seq, expected, stats=None, reuse=False):
+def judge(ctx, rule_name, element, seq, expected, stats=None, reuse=False, foreign_as=None):
     """Runs the real validator in both modes on one sequence and compares with `expected`."""
-    names = _materialise(seq, emlkit.spec_of(rule_name).names)
+    names = _materialise(seq, emlkit.spec_of(rule_name).names) if foreign_as is None else [foreign_as if a == relang.FOREIGN else a for a in seq]
     wit = {"rule": rule_name, "element": element, "seq": list(seq)}
+    if foreign_as is not None:
+        wit["foreign_as"] = foreign_as
     if reuse:
         # a long-lived Rule object too (a caller that keeps `r = Rule(name)` or `get_rule(name)` around): what it validated before -
         # including a fail-fast validation that ended in a raise - must not matter
@@ -170,6 +182,15 @@ def judge(ctx, rule_name, element, seq, expected, stats=None, reuse=False):
             except Exception:
                 pass
             emlkit.discard(twin)
+            if names and len(seq) % 3 == 0:
+                # ... and what a node of ANOTHER rule with the very same children reports about them (where they are strangers)
+                other_rule = "accessRule" if rule_name != "accessRule" else "addressRule"
+                stranger = emlkit.make_node(other_rule, None, names)
+                try:
+                    emlkit.validate_as(other_rule, stranger, errs)
+                except Exception:
+                    pass
+                emlkit.discard(stranger)
             before = list(errs)
             ctx.count("collecting_calls_with_prefilled_list")
         try:
@@ -286,7 +307,13 @@ def run_rule(ctx, rule_name, tier, part, parts):
                 if other != element and other != "metadata":
                     judge(ctx, rule_name, other, seq, expected, stats)
                     ctx.count("short_sequences_on_other_mapped_elements")
-        out = judge(ctx, rule_name, element, seq, expected, stats, reuse=((n // 6) % 3 == 0))
+        reuse_now = (n // 6) % 3 == 0
+        out = judge(ctx, rule_name, element, seq, expected, stats, reuse=reuse_now)
+        if reuse_now and len(set(seq)) >= 2 and relang.FOREIGN not in seq:
+            # the same children re-ordered in place on the long-lived parent (same objects, same count), validated again
+            rev = tuple(reversed(seq))
+            judge(ctx, rule_name, element, rev, m.verdict(rev), stats, reuse=True)
+            ctx.count("reorders_in_place_on_reused_parent")
         if n % 101 == 0:
             ctx.later(lambda c, r=rule_name, e=element, s_=seq, x=expected: judge(c, r, e, s_, x))
         ctx.distinct((rule_name, seq))
@@ -294,6 +321,16 @@ def run_rule(ctx, rule_name, tier, part, parts):
             ctx.sample({"rule": rule_name, "element": element, "children": _materialise(seq, spec.names),
                         "reference": expected, "failfast": out[0], "collecting": out[1]})
     if part == 0:
+        # names of the real vocabulary that this rule does not declare (elements of EML the library has no mapping for, elements that
+        # belong elsewhere): strangers like any other, under every element the rule governs
+        base0 = tuple(emlkit.shortest_valid_sequence(rule_name) or [])
+        for fname in ("studyAreaDescription", "protocol", "software", "citation", "references", "metadata", "annotation", "para"):
+            if fname in spec.names:
+                continue
+            for el in [e for e in elements if e != "metadata"]:
+                for seq in ((relang.FOREIGN,), base0 + (relang.FOREIGN,), (relang.FOREIGN,) + base0):
+                    judge(ctx, rule_name, el, seq, m.verdict(seq), stats, foreign_as=fname)
+                    ctx.count("real_names_as_strangers")
         # long sequences (hundreds of children: an attribute list, a taxonomic coverage): a short valid sequence with one symbol
         # pumped at one position, judged by walking the reference machine
         base = emlkit.shortest_valid_sequence(rule_name) or []
@@ -417,7 +454,9 @@ def replay(ctx, witness):
         exp = relang.ACCEPT if len(seq) <= 1 else relang.REJECT
     else:
         exp = m.verdict(seq)
-    if witness.get("reused_objects"):
+    if witness.get("foreign_as"):
+        out = judge(ctx, r, witness.get("element"), seq, exp, foreign_as=witness["foreign_as"])
+    elif witness.get("reused_objects"):
         prev = witness.get("previous_seq")
         if prev is not None:
             judge(ctx, r, witness.get("element"), tuple(prev), m.verdict(tuple(prev)), reuse=True)
